@@ -95,6 +95,35 @@ def _get_cache_size_313(opname: str) -> int:
     return _inline_cache_entries.get(opname, 0)
 
 
+def _get_cache_size_312(opname: str) -> int:
+    _inline_cache_entries = {
+        "BINARY_SUBSCR": 1,
+        "STORE_SUBSCR": 1,
+        "UNPACK_SEQUENCE": 1,
+        "FOR_ITER": 1,
+        "STORE_ATTR": 4,
+        "LOAD_ATTR": 9,
+        "COMPARE_OP": 1,
+        "LOAD_GLOBAL": 4,
+        "BINARY_OP": 1,
+        "SEND": 1,
+        "LOAD_SUPER_ATTR": 1,
+        "CALL": 3,
+    }
+    return _inline_cache_entries.get(opname, 0)
+
+
+def get_jump_cache_size(opname: str, version_tuple: tuple) -> int:
+    """Number of inline CACHE entries that follow jump instruction
+    ``opname``. Starting with 3.12, a relative jump is taken from the
+    end of these entries."""
+    if version_tuple >= (3, 13):
+        return _get_cache_size_313(opname)
+    elif version_tuple >= (3, 12):
+        return _get_cache_size_312(opname)
+    return 0
+
+
 def findlabels(code, opc):
     if opc.version_tuple < (3, 10):
         return findlabels_pre_310(code, opc)
@@ -110,13 +139,11 @@ def findlabels_310(code: bytes, opc):
     for offset, op, arg in unpack_opargs_bytecode_310(code, opc):
         if arg is not None:
             if op in opc.JREL_OPS:
-                if opc.version_tuple >= (3, 11) and opc.opname[op] in ("JUMP_BACKWARD", "JUMP_BACKWARD_NO_INTERRUPT"):
+                if opc.version_tuple >= (3, 11) and "JUMP_BACKWARD" in opc.opname[op]:
                     arg = -arg
                 label = offset + 2 + arg * 2
-                # in 3.13 we have to add total cache offsets to label
-                if opc.version_tuple >= (3, 13):
-                    cachesize = _get_cache_size_313(opc.opname[op])
-                    label += 2 * cachesize
+                # Starting in 3.12, we have to add total cache offsets to label
+                label += 2 * get_jump_cache_size(opc.opname[op], opc.version_tuple)
             elif op in opc.JABS_OPS:
                 label = arg * 2
             else:
